@@ -715,8 +715,22 @@ pub fn not(negand: &Value) -> Value {
 /// Grouping...
 pub fn number(from: &Value, grouping_separator: &Value, decimal_separator: &Value) -> Value {
   // function for converting string to Value::Number
+  // after handling the separators the text must be a numeric literal: -?(digits(.digits)?|.digits)
+  let is_numeric_literal = |value: &str| {
+    let unsigned = value.strip_prefix('-').unwrap_or(value);
+    let (integer_part, fraction_part) = match unsigned.split_once('.') {
+      Some((integer_part, fraction_part)) => (integer_part, Some(fraction_part)),
+      None => (unsigned, None),
+    };
+    let all_digits = |digits: &str| digits.chars().all(|ch| ch.is_ascii_digit());
+    match fraction_part {
+      Some(fraction_part) => !fraction_part.is_empty() && all_digits(fraction_part) && all_digits(integer_part),
+      None => !integer_part.is_empty() && all_digits(integer_part),
+    }
+  };
   let convert = |value: String| match value.parse::<FeelNumber>() {
-    Ok(number) => Value::Number(number),
+    Ok(number) if is_numeric_literal(&value) => Value::Number(number),
+    Ok(_) => value_null!("[core::number] '{}' is not a numeric literal", value),
     Err(reason) => value_null!("[core::number] {}", reason),
   };
   match from {
